@@ -42,11 +42,23 @@ def case(ctx, rng, idx, state):
         div = div + 1 if (not with_group or pg.symmetric_grid(div + 1)) else div
     if np.prod(div) > 12 or np.prod(fft) > 12:
         raise harness.Skip("grid too large for the budget")
-    grid = Grid(system, NKdiv=div, NKFFT=fft)
-    if not (np.all(grid.div == div) and np.all(grid.FFT == fft)):
-        raise harness.Skip("grid adjusted")
+    tetra_grid = (idx % 6 == 2) and not with_group
+    if tetra_grid:
+        # tetrahedral grid (refined through KpointBZtetra.divide): the bookkeeping identity is the same
+        from wannierberri.grid import GridTetra
+        fft = np.array([int(x) for x in rng.integers(1, 3, size=3)])
+        with env.quiet():
+            grid = GridTetra(system, length=float(rng.uniform(3, 8)), NKFFT=fft.copy())
+        info = dict(info, grid="GridTetra")
+        ctx.count("tetrahedral_grid_cases")
+    else:
+        grid = Grid(system, NKdiv=div, NKFFT=fft)
+        if not (np.all(grid.div == div) and np.all(grid.FFT == fft)):
+            raise harness.Skip("grid adjusted")
     use_irred = bool(with_group and rng.random() < 0.8)
     symmetrize = use_irred or bool(rng.random() < 0.3)
+    if tetra_grid:
+        symmetrize = False
     storage = ["memory", "allow_restart", "dump_results", "discard"][int(rng.integers(4))]
     niter = 0 if storage == "discard" else int(rng.integers(1, 6 if ctx.thorough else 4))
     adpt_mesh = int(rng.integers(2, 4))
@@ -56,7 +68,7 @@ def case(ctx, rng, idx, state):
     adversarial = rng.random() < 0.35
     if adversarial:
         calcs["stub"] = monitors.make_stub_calculator(salt=int(rng.integers(1 << 30)))
-    deep = (idx % 6 == 5)
+    deep = (idx % 6 == 5) and not tetra_grid
     if deep:
         # deep history: only the stub, which makes deeper cells look more important, so that the same region is refined
         # again and again and K-point weights become tiny (1/(N*mesh^(3L)))
